@@ -10,7 +10,7 @@ ID = "C05"
 LEAN_PROPS = ["FcpptProofs.Props.C05"]
 
 
-FAMILIES = ("alg", "opt", "eith", "tup", "rec", "grid", "opts", "parse")
+FAMILIES = ("alg", "alg2", "opt", "eith", "tup", "rec", "grid", "tree", "opts", "parse")
 
 
 def _repo_srcs():
@@ -243,6 +243,57 @@ def table():
         ("eithseqerr", [ANY], sized(1, par=lambda s: masks(s[0], 1)), always),
         ("eithloop", [], no_args(lambda m: [[k] for k in range(m + 1)]), always),
         ("varctor", [ANY], one([[0], [1], [2]]), rv_only),
+        # extension round 2: algorithm / container helpers (LC: `Range &` / `Range const &`)
+        ("algfind", ["lc", "c"], sized(2, {1: [1]}, lambda s: [[k] for k in range(s[0] + 1)]), always),
+        ("algindexof", ["lc", "c"], sized(2, {1: [1]}, lambda s: [[k] for k in range(s[0] + 1)]), always),
+        ("algcontains", ["lc", "c"], sized(2, {1: [1]}, lambda s: [[k] for k in range(s[0] + 1)]), always),
+        ("algfindif", ["lc"], sized(1, par=lambda s: [[k] for k in range(s[0] + 1)]), always),
+        ("algfindby", ["lc"], sized(1, par=lambda s: [[k] for k in range(s[0] + 1)]), always),
+        ("alggenerate", [], no_args(lambda m: [[k] for k in range(m + 2)]), always),
+        ("algmapiter", ["i"], sized(1, par=lambda s: masks(s[0], 1)), always),
+        ("algmapiter2", ["i"], sized(1, par=lambda s: masks(s[0], 1)), always),
+        ("algseqiter", ["i"], sized(1, par=lambda s: masks(s[0], 1)), always),
+        ("continsert", ["i", ANY], sized(2, {1: [1]}, lambda s: [[k] for k in range(s[0] + 1)]), lambda cats: cats[1] == "r"),
+        ("setunion", ["lc", "lc"], lambda maxn: list(sized(2, par=lambda s: [[0]])(maxn)) + [((n, 0), [1]) for n in range(maxn + 1)], never),
+        ("setdiff", ["lc", "lc"], lambda maxn: list(sized(2, par=lambda s: [[0]])(maxn)) + [((n, 0), [1]) for n in range(maxn + 1)], never),
+        ("setinter", ["lc", "lc"], lambda maxn: list(sized(2, par=lambda s: [[0]])(maxn)) + [((n, 0), [1]) for n in range(maxn + 1)], never),
+        ("mapvalcopy", ["lc"], sized(1), never),
+        ("atopt", ["lc"], sized(1, par=lambda s: [[k] for k in range(s[0] + 1)]), always),
+        ("maybeback", ["lc"], sized(1), always),
+        ("maybefront", ["lc"], sized(1), always),
+        ("findoptmapped", ["lc"], sized(1, par=lambda s: [[k] for k in range(s[0] + 1)]), always),
+        ("indexmapget", ["i"], sized(1, par=lambda s: [[k] for k in range(s[0] + 3)]), always),
+        # tree members (root value + children as two arguments; assignment: target + source)
+        ("treectortree", ["l", "l"], sized(2, {0: [1]}, cap=4), never),
+        ("treectortree", ["c", "c"], sized(2, {0: [1]}, cap=4), never),
+        ("treectortree", ["r", "r"], sized(2, {0: [1]}, cap=4), always),
+        ("treectorchildren", ["r", "r"], sized(2, {0: [1]}, cap=4), always),
+        ("treeassign", ["i", "i", "l", "l"], sized(4, {0: [1], 2: [1]}, cap=3), never),
+        ("treeassign", ["i", "i", "c", "c"], sized(4, {0: [1], 2: [1]}, cap=3), never),
+        ("treeassign", ["i", "i", "r", "r"], sized(4, {0: [1], 2: [1]}, cap=3), always),
+        ("treeselfassign", ["i", "i"], sized(2, {0: [1]}, lambda s: [[0]], cap=4), never),
+        ("treeselfassign", ["i", "i"], sized(2, {0: [1]}, lambda s: [[1]], cap=4), always),
+        ("treesetvalue", ["i", ANY], one([[]], 2), lambda cats: cats[1] == "r"),
+        ("treepushfrontval", ["i", ANY], sized(2, {0: [1, 2, 3], 1: [1]}), lambda cats: cats[1] == "r"),
+        ("treeinsertval", ["i", ANY], sized(2, {0: [1, 2, 3], 1: [1]}, lambda s: [[k] for k in range(s[0])]), lambda cats: cats[1] == "r"),
+        ("treepushfronttree", ["i", "r"], sized(2, {0: [1, 2, 3], 1: [1]}), always),
+        ("treeinserttree", ["i", "r"], sized(2, {0: [1, 2, 3], 1: [1]}, lambda s: [[k] for k in range(s[0])]), always),
+        ("treepopback", ["i"], lambda maxn: [((n,), []) for n in range(1, maxn + 2)], always),
+        ("treepopfront", ["i"], lambda maxn: [((n,), []) for n in range(1, maxn + 2)], always),
+        ("treeerase", ["i"], lambda maxn: [((n,), [i]) for n in range(2, maxn + 2) for i in range(n - 1)], always),
+        ("treeeraserange", ["i"], lambda maxn: [((n,), [i, j]) for n in range(1, maxn + 2) for j in range(n) for i in range(j + 1)], always),
+        ("treeclear", ["i"], lambda maxn: [((n,), []) for n in range(1, maxn + 2)], always),
+        ("treesort", ["i"], lambda maxn: [((n,), []) for n in range(1, maxn + 2)], always),
+        # grid constructors / assignment / fill
+        ("gridctorfn", [], no_args(lambda m: [list(d) for d in (DIMS_MORE if m > 3 else DIMS)]), always),
+        ("gridctorvalue", ["c"], lambda maxn: [((1,), list(d)) for d in (DIMS_MORE if maxn > 3 else DIMS)], never),
+        ("gridctorrows2", ["r", "r"], lambda maxn: [((1, 1), []), ((2, 2), [])], always),
+        ("gridstaticrow2", [ANY, ANY], one([[]], 2), rv_only),
+        ("gridctorgrid", [ANY], grid_shapes(1), rv_only),
+        ("gridassign", ["i", ANY], sized(2, cap=3), lambda cats: cats[1] == "r"),
+        ("gridselfassign", ["i"], sized(1, par=lambda s: [[0]], cap=3), never),
+        ("gridselfassign", ["i"], sized(1, par=lambda s: [[1]], cap=3), always),
+        ("gridfill", ["i"], sized(1, cap=4), always),
         ("eithfirst", [], lambda maxn: [((), list(m)) for ln in range(maxn + 1) for m in itertools.product([0, 1], repeat=ln)], always),
     ]
 
